@@ -138,6 +138,22 @@ CLAIMED = {
         "for emitted token kinds; harness.",
    technique="Coq proof by token-tree induction over engine + graph models, vm_compute correspondence, play-through hop oracle",
    design_ref="DESIGN.md §6 C18"),
+ "C05": dict(
+   category="proof",
+   text="Theorems in coq/Props/C05.v (closed) about a Gallina model of save_state/load_state over JSON trees: loading the JSON round trip "
+        "of a save into ANY engine for the same story yields exactly the saved core (position, used one-time choices, hooks, @join progress, "
+        "displayed output; variables as the C06 value codec restores them) with empty undo/redo stacks, hence every continuation equals the "
+        "original's with its history cleared; every JSON tree that the shape test rejects is refused with ValueError and the running game is "
+        "returned unchanged; load has no third outcome (also for older-format saves).  The displayed output's JSON encoding is an abstract "
+        "encode/decode pair constrained only by 'decode(round trip(encode o)) = o and passes the shape test'.  Tie + oracles on the real "
+        "engine: save has no effect and is a function of the state; load(json(save)) into a fresh and into a used engine reproduces every view "
+        "field; the same random continuation on the original (history cleared) and on the loaded engine agrees step by step; mutated "
+        "documents must raise ValueError (never another kind) and leave the engine untouched; the model's valid_doc is evaluated inside Coq on "
+        "every real and mutated document and compared with what load_state did.",
+   note="Trusted: Coq kernel + vm_compute; SaveLoad.v tied by the valid_doc correspondence and the behavioural oracles; the output codec is "
+        "abstract in the theorems; value codec = C06.",
+   technique="Coq proof over a JSON-tree model of save/load + vm_compute correspondence of the shape test + continuation differential",
+   design_ref="DESIGN.md §6 C05"),
 }
 
 ALL = [f"C{i:02d}" for i in range(1, 21)]
